@@ -57,7 +57,7 @@ import bs4, soupsieve
 MARKUP = """<!DOCTYPE html><html lang="en"><head><meta http-equiv="content-language" content="de"><title>t</title></head><body>
 <div id="d" class="a b"><!--secret--><p id="p1">one<!--two--></p><p id="p2" dir="rtl"></p><p id="p3"><![CDATA[cd]]></p><span id="s"> </span></div>
 <div id="e"><!--only comment--></div><form><input id="i1" type="checkbox" checked><input id="i2" type="number" min="1" max="3" value="5">
-<input id="i3" type="radio" name="n"><button id="b" type="submit">go</button></form><svg><circle id="c"/></svg></body></html>"""
+<input id="i3" type="radio" name="n"><button id="b" type="submit">go</button></form><svg xmlns:xlink="http://www.w3.org/1999/xlink" xml:lang="fr"><circle id="c"/><a id="sa" xlink:href="u" href="v"><text id="tx">t</text></a></svg></body></html>"""
 SELECTORS = ["p", "div:empty", "p:-soup-contains(secret)", ":-soup-contains-own(one)", ":root", "p:nth-child(2)", ":lang(en)", "[class~=a]",
              ":checked", ":dir(rtl)", ":out-of-range", ":default", ":indeterminate", "div > p:not(:empty)", "span:empty, #e:empty", ":has(> circle)"]
 out = {}
@@ -68,6 +68,15 @@ for parser in ("html.parser", "lxml", "html5lib", "xml"):
         b = [str(x.get("id")) + "/" + x.name for x in soupsieve.select(sel, soup)]
         c = soup.select_one(sel)
         out[parser + "|" + sel] = [a, b, None if c is None else c.name]
+    NS = {"svg": "http://www.w3.org/2000/svg", "xlink": "http://www.w3.org/1999/xlink", "h": "http://www.w3.org/1999/xhtml"}
+    for sel in ("[xlink|href]", "[*|href]", "svg|a", "svg|*:lang(fr)", ":lang(fr)", "h|p", "[|href]", ":--x"):
+        a = [str(x.get("id")) + "/" + x.name for x in soup.select(sel, namespaces=NS, custom={":--x": "p:not(:empty)"})]
+        b = [str(x.get("id")) + "/" + x.name for x in soupsieve.select(sel, soup, namespaces=NS, custom={":--x": "p:not(:empty)"})]
+        out[parser + "|ns|" + sel] = [a, b, None]
+    p1 = soup.find(id="p1")
+    if p1 is not None:
+        out[parser + "|api"] = [[soupsieve.match("div > p", p1), soupsieve.closest("div", p1).get("id"), [x.get("id") for x in soupsieve.filter("p", p1.parent)]],
+                                [p1.css.match("div > p"), p1.css.closest("div").get("id"), [x.get("id") for x in p1.parent.css.filter("p")]], soupsieve.escape("1 a.b")]
 print(json.dumps({"states": states, "probe": out, "world_delta": world_delta}, sort_keys=True, default=repr))
 '''
 
@@ -145,7 +154,7 @@ def run_sequence(seq):
                  detail=f'importing changed {keys}: ' + '; '.join(f'{k}: {str(wd.get(k))[:160]}' for k in keys[:2]))
         return r
     for k, (a, b, c) in data['probe'].items():
-        if a != b:
+        if a != b and not k.endswith('|api'):
             r.update(kind='bs4-vs-soupsieve', detail=f'{k}: BeautifulSoup.select -> {a}, soupsieve.select -> {b}')
             return r
     r['kind'] = 'ok'
